@@ -336,7 +336,17 @@ pub fn judge_server(prop: &str, scenario: &Scenario, res: &ExecResult, report: &
             let mut stats = MsgStats::default();
             let judged = std::panic::catch_unwind(std::panic::AssertUnwindSafe(|| match prop {
                 "C11" => oracle::check_c11(&model, res, &mut stats),
-                "C12" => oracle::check_messages("C12", scenario, &model, res, false, &mut stats),
+                "C12" => {
+                    let mut v = oracle::check_messages("C12", scenario, &model, res, false, &mut stats);
+                    // "at every point": what the client is left showing once the server is idle
+                    // is the latest text's diagnostics, whatever order the publications took
+                    if !model.racy.last().copied().unwrap_or(false) {
+                        for x in oracle::check_c11(&model, res, &mut stats) {
+                            v.push(Violation::new("C12", format!("shown-when-idle:{}", x.class), x.detail));
+                        }
+                    }
+                    v
+                }
                 "C07" => {
                     let mut v = oracle::check_messages("C07", scenario, &model, res, true, &mut stats);
                     for x in v.iter_mut() {
